@@ -206,11 +206,13 @@ def _miri_leg(cid, seed, jobs, root, env, log):
             evals += int(m.group(1))
             if int(m.group(3)) > 0:
                 # the harness printed its JSON on stdout: extract the violations
-                jm = re.search(r"(?s)(\{\n.*\n\})", text)
+                # the harness prints its evidence JSON on stdout (keys sorted: "assumptions" first)
                 listed = []
-                if jm:
+                a = text.find('{\n  "assumptions"')
+                b = text.rfind("\n}")
+                if a >= 0 and b > a:
                     try:
-                        listed = json.loads(jm.group(1)).get("violation_list", [])
+                        listed = json.loads(text[a:b + 2]).get("violation_list", [])
                     except Exception:
                         listed = []
                 for v in listed or [{"signature": "oracle", "detail": text[-3000:], "replay": {}}]:
